@@ -13,7 +13,9 @@ use std::cell::RefCell;
 use std::future::Future;
 use std::panic::{catch_unwind, resume_unwind, AssertUnwindSafe};
 use std::pin::Pin;
+use std::sync::atomic::{AtomicU8, Ordering};
 use std::sync::mpsc::{channel, Receiver, RecvTimeoutError, Sender};
+use std::sync::Arc;
 use std::task::{Context, Poll, Waker};
 use std::time::Duration;
 
@@ -52,8 +54,15 @@ pub trait Machine: Sync + 'static {
     fn observe(&'static self) -> Value;
 }
 
+/// Where a model thread is, as seen by the watchdog: waiting for a command (the engine's own
+/// bookkeeping - a missing reply in this phase is an engine bug) or executing a step /
+/// observation (a missing reply in this phase is a hang of the code that is being driven).
+pub const PHASE_WAITING: u8 = 0;
+pub const PHASE_BUSY: u8 = 1;
+pub const PHASE_EXITED: u8 = 2;
+
 thread_local! {
-    static CHAN: RefCell<Option<(Receiver<Cmd>, Sender<Value>)>> = const { RefCell::new(None) };
+    static CHAN: RefCell<Option<(Receiver<Cmd>, Sender<Value>, Arc<AtomicU8>)>> = const { RefCell::new(None) };
 }
 
 pub fn reply(v: Value) {
@@ -70,7 +79,11 @@ pub fn reply_ok() {
 fn recv() -> Cmd {
     CHAN.with(|c| {
         let c = c.borrow();
-        c.as_ref().expect("not a model thread").0.recv().unwrap_or(Cmd::Quit)
+        let c = c.as_ref().expect("not a model thread");
+        c.2.store(PHASE_WAITING, Ordering::SeqCst);
+        let cmd = c.0.recv().unwrap_or(Cmd::Quit);
+        c.2.store(PHASE_BUSY, Ordering::SeqCst);
+        cmd
     })
 }
 
@@ -113,8 +126,9 @@ fn panic_text(e: &Panicked) -> String {
     }
 }
 
-fn thread_main<M: Machine>(m: &'static M, rx: Receiver<Cmd>, tx: Sender<Value>) {
-    CHAN.with(|c| *c.borrow_mut() = Some((rx, tx)));
+fn thread_main<M: Machine>(m: &'static M, rx: Receiver<Cmd>, tx: Sender<Value>, phase: Arc<AtomicU8>) {
+    let done = tx.clone();
+    CHAN.with(|c| *c.borrow_mut() = Some((rx, tx, phase.clone())));
     loop {
         match catch_unwind(AssertUnwindSafe(|| run_loop(m))) {
             Ok(Leave::Quit) => break,
@@ -126,6 +140,17 @@ fn thread_main<M: Machine>(m: &'static M, rx: Receiver<Cmd>, tx: Sender<Value>) 
         }
     }
     CHAN.with(|c| *c.borrow_mut() = None);
+    phase.store(PHASE_EXITED, Ordering::SeqCst);
+    let _ = done.send(json!({"exited": true}));
+}
+
+/// Seconds a single step / observation / shutdown of a model thread may take before the
+/// watchdog declares it stuck (legitimate steps take microseconds).
+pub fn step_timeout() -> Duration {
+    static T: std::sync::OnceLock<u64> = std::sync::OnceLock::new();
+    Duration::from_secs(*T.get_or_init(|| {
+        std::env::var("VERIF_STEP_TIMEOUT").ok().and_then(|s| s.parse().ok()).unwrap_or(20)
+    }))
 }
 
 pub struct Outcome {
@@ -144,49 +169,71 @@ pub fn run_case<M: Machine>(
     let mut txs = Vec::new();
     let mut rxs = Vec::new();
     let mut handles = Vec::new();
+    let mut phases = Vec::new();
     for i in 0..nthreads {
         let (ctx, crx) = channel::<Cmd>();
         let (rtx, rrx) = channel::<Value>();
+        let phase = Arc::new(AtomicU8::new(PHASE_BUSY));
+        let ph = phase.clone();
         let h = std::thread::Builder::new()
             .name(format!("model-{}", i + 1))
             .stack_size(1 << 20)
-            .spawn(move || thread_main(m, crx, rtx))
+            .spawn(move || thread_main(m, crx, rtx, ph))
             .unwrap_or_else(|e| tool_error(&format!("spawn: {e}")));
         txs.push(ctx);
         rxs.push(rrx);
         handles.push(h);
+        phases.push(phase);
     }
-    let wait = |rx: &Receiver<Value>| -> Value {
-        match rx.recv_timeout(Duration::from_secs(30)) {
+    let limit = step_timeout();
+    // Watchdog: a reply that does not arrive.  If the thread sits in the engine's own wait for
+    // a command, the engine lost a reply: that is a tool error (exit 2, case printed).  If it
+    // is executing, the code that is being driven hangs: that is data.
+    let wait = |u: usize, what: &str, at: usize| -> Value {
+        match rxs[u].recv_timeout(limit) {
             Ok(v) => v,
-            Err(RecvTimeoutError::Timeout) => json!({"hang": true}),
+            Err(RecvTimeoutError::Timeout) => {
+                if phases[u].load(Ordering::SeqCst) == PHASE_WAITING {
+                    tool_error(&format!(
+                        "engine: model thread {} waits for a command but never answered the {what} at step {at} of {}",
+                        u + 1, json!(steps)));
+                }
+                json!({"hang": true})
+            }
             Err(RecvTimeoutError::Disconnected) => json!({"tool_error": "model thread died"}),
         }
     };
     let mut out = Outcome { mismatch: None, steps_run: 0 };
-    let mut hung = false;
-    for (i, step) in steps.iter().enumerate() {
+    let mut hung: Vec<bool> = vec![false; nthreads];
+    'steps: for (i, step) in steps.iter().enumerate() {
         let t = step["t"].as_u64().unwrap_or(0) as usize;
         if t == 0 || t > nthreads {
             tool_error(&format!("step without thread: {step}"));
         }
         let _ = txs[t - 1].send(Cmd::Step(step.clone()));
-        let rep = wait(&rxs[t - 1]);
+        let rep = wait(t - 1, "step", i);
         if let Some(e) = rep.get("tool_error") {
             tool_error(&format!("{e} at step {i} of {}", json!(steps)));
         }
         out.steps_run += 1;
         if rep.get("hang").is_some() {
-            out.mismatch = Some(json!({"step": i, "what": "hang", "detail": "no reply within 30 s"}));
-            hung = true;
+            out.mismatch = Some(json!({"step": i, "what": "hang: a step of the program never finished in the code under test",
+                "detail": {"thread": t, "limit_s": limit.as_secs()}}));
+            hung[t - 1] = true;
             break;
         }
         let mut obs = Vec::with_capacity(nthreads);
         for u in 0..nthreads {
             let _ = txs[u].send(Cmd::Observe);
-            let o = wait(&rxs[u]);
+            let o = wait(u, "observation", i);
+            if let Some(e) = o.get("tool_error") {
+                tool_error(&format!("{e} (observation of thread {}) at step {i} of {}", u + 1, json!(steps)));
+            }
             if o.get("hang").is_some() {
-                hung = true;
+                out.mismatch = Some(json!({"step": i, "what": "hang: observing the ambient state never finished in the code under test",
+                    "detail": {"thread": u + 1, "limit_s": limit.as_secs()}}));
+                hung[u] = true;
+                break 'steps;
             }
             obs.push(o);
         }
@@ -195,18 +242,51 @@ pub fn run_case<M: Machine>(
             out.mismatch = Some(mm);
             break;
         }
-        if hung {
-            out.mismatch = Some(json!({"step": i, "what": "hang", "detail": "observation hung"}));
-            break;
-        }
     }
     for tx in &txs {
         let _ = tx.send(Cmd::Quit);
     }
     drop(txs);
-    if !hung {
-        for h in handles {
-            let _ = h.join();
+    // Shutdown, bounded as well: every thread announces its exit; one that does not (it is
+    // unwinding the frames it still has entered - code under test) is abandoned, not joined.
+    for (u, h) in handles.into_iter().enumerate() {
+        if hung[u] {
+            continue;       // abandoned: it never came back from a step
+        }
+        let deadline = std::time::Instant::now() + limit;
+        let mut exited = false;
+        loop {
+            let left = deadline.saturating_duration_since(std::time::Instant::now());
+            match rxs[u].recv_timeout(left) {
+                Ok(v) if v.get("exited").is_some() => {
+                    exited = true;
+                    break;
+                }
+                Ok(_) => continue,          // stray reply of an abandoned observation
+                Err(RecvTimeoutError::Disconnected) => {
+                    exited = phases[u].load(Ordering::SeqCst) == PHASE_EXITED;
+                    break;
+                }
+                Err(RecvTimeoutError::Timeout) => break,
+            }
+        }
+        if exited {
+            // thread-local destructors still run after the announcement: bounded wait
+            let t0 = std::time::Instant::now();
+            let mut spins = 0u32;
+            while !h.is_finished() && t0.elapsed() < limit {
+                spins += 1;
+                if spins < 200 { std::thread::yield_now() } else { std::thread::sleep(Duration::from_micros(100)) }
+            }
+            if h.is_finished() {
+                let _ = h.join();
+            }
+        } else if phases[u].load(Ordering::SeqCst) == PHASE_WAITING {
+            tool_error(&format!("engine: model thread {} still waits for a command after Quit; case {}", u + 1, json!(steps)));
+        } else if out.mismatch.is_none() {
+            out.mismatch = Some(json!({"step": steps.len().saturating_sub(1),
+                "what": "hang: leaving the frames still entered at the end of the program never finished in the code under test",
+                "detail": {"thread": u + 1, "limit_s": limit.as_secs()}}));
         }
     }
     out
@@ -280,12 +360,50 @@ pub fn drive<S: Send + 'static>(
         std::io::BufReader::with_capacity(1 << 20, file).lines().enumerate()
     };
     let lines = std::sync::Arc::new(std::sync::Mutex::new(lines));
+    // what every driver worker is running right now, for the overall watchdog
+    let nworkers = workers.max(1);
+    let inflight: Arc<Vec<std::sync::Mutex<Option<(usize, std::time::Instant, String)>>>> =
+        Arc::new((0..nworkers).map(|_| std::sync::Mutex::new(None)).collect());
+    let finished = Arc::new(std::sync::atomic::AtomicBool::new(false));
+    {
+        // Overall watchdog: the harness never outlives VERIF_HARNESS_LIMIT seconds.  Running out
+        // of time is a failure of the machinery (exit 2) and says which programs were running.
+        let (inflight, finished) = (inflight.clone(), finished.clone());
+        let limit = std::env::var("VERIF_HARNESS_LIMIT").ok().and_then(|s| s.parse::<u64>().ok()).unwrap_or(600);
+        std::thread::spawn(move || {
+            let t0 = std::time::Instant::now();
+            while t0.elapsed() < Duration::from_secs(limit) {
+                std::thread::sleep(Duration::from_millis(200));
+                if finished.load(Ordering::SeqCst) {
+                    return;
+                }
+            }
+            let mut msg = format!("harness exceeded its overall limit of {limit} s; programs in flight:");
+            for (w, slot) in inflight.iter().enumerate() {
+                if let Ok(g) = slot.try_lock() {
+                    if let Some((no, since, line)) = g.as_ref() {
+                        msg.push_str(&format!("\n  worker {w}: case {no} running for {:.1} s: {}", since.elapsed().as_secs_f64(),
+                            &line[..line.len().min(1500)]));
+                    }
+                }
+            }
+            tool_error(&msg);
+        });
+    }
+    let cpus = allowed_cpus();
     let mk = std::sync::Arc::new(mk);
     let run = std::sync::Arc::new(run);
     let mut hs = Vec::new();
     for w in 0..workers.max(1) {
-        let (lines, mk, run) = (lines.clone(), mk.clone(), run.clone());
+        let (lines, mk, run, inflight) = (lines.clone(), mk.clone(), run.clone(), inflight.clone());
+        let cpu = if cpus.is_empty() { None } else { Some(cpus[w % cpus.len()]) };
         hs.push(std::thread::spawn(move || {
+            // A case is strictly sequential (one thread runs at a time): keeping the worker and
+            // the model threads it spawns (they inherit the mask) on one core avoids cross-core
+            // wake-ups, which dominate the run time otherwise.
+            if let Some(cpu) = cpu {
+                pin_to(cpu);
+            }
             let mut st = mk(w);
             let mut rep = Report::new();
             loop {
@@ -304,7 +422,9 @@ pub fn drive<S: Send + 'static>(
                 // a stored replay names the case number it had (the harness derives the
                 // representation choices the specification does not distinguish from it)
                 let no = case.get("no").and_then(|n| n.as_u64()).map(|n| n as usize).unwrap_or(*no);
+                *inflight[w].lock().unwrap() = Some((no, std::time::Instant::now(), line.clone()));
                 let o = run(&mut st, no, &case);
+                *inflight[w].lock().unwrap() = None;
                 rep.cases += 1;
                 rep.checks += o.steps_run;
                 if let Some(mut mm) = o.mismatch {
@@ -317,8 +437,12 @@ pub fn drive<S: Send + 'static>(
         }));
     }
     let mut total = Report::new();
-    for h in hs {
-        let r = h.join().unwrap_or_else(|_| tool_error("driver worker panicked"));
+    let results: Vec<Report> = hs
+        .into_iter()
+        .map(|h| h.join().unwrap_or_else(|_| tool_error("driver worker panicked")))
+        .collect();
+    finished.store(true, Ordering::SeqCst);
+    for r in results {
         total.cases += r.cases;
         total.checks += r.checks;
         total.total_mismatches += r.total_mismatches;
@@ -329,6 +453,28 @@ pub fn drive<S: Send + 'static>(
         }
     }
     total
+}
+
+/// CPUs this process may run on.
+fn allowed_cpus() -> Vec<usize> {
+    if std::env::var("VERIF_NO_PIN").is_ok() {
+        return Vec::new();
+    }
+    unsafe {
+        let mut set: libc::cpu_set_t = std::mem::zeroed();
+        if libc::sched_getaffinity(0, std::mem::size_of::<libc::cpu_set_t>(), &mut set) != 0 {
+            return Vec::new();
+        }
+        (0..libc::CPU_SETSIZE as usize).filter(|c| libc::CPU_ISSET(*c, &set)).collect()
+    }
+}
+
+fn pin_to(cpu: usize) {
+    unsafe {
+        let mut set: libc::cpu_set_t = std::mem::zeroed();
+        libc::CPU_SET(cpu, &mut set);
+        let _ = libc::sched_setaffinity(0, std::mem::size_of::<libc::cpu_set_t>(), &set);
+    }
 }
 
 pub fn workers_from_env() -> usize {
